@@ -20,7 +20,7 @@ LEVEL_TEXT = ("Complete enumeration of valid generated program x every statement
               "ips and sfc), plus one real CLI process per (error class, format); the unmodified programs are the negative control. "
               "Five unit tests assert NodeError from the string API only.")
 LEVEL_NOTE = ("Failure = non-None return, non-zero status, or any exception; success must not be announced in the log. Positions are "
-              "top-level statement boundaries of 7 base programs. A hang is reported as a violation here as well (it is not a report).")
+              "top-level statement boundaries of 14 base programs. A hang is reported as a violation here as well (it is not a report).")
 TECHNIQUE = "exhaustive fault injection: error class x statement position x entry point, status/exception oracle"
 RULE = ("case = (base program, error class); it injects that error at every top-level position and runs every entry point. evaluations = "
         "(position, entry point) runs. Every faulty case is distinct by construction and non-trivial (it contains a definite error); "
@@ -135,7 +135,7 @@ def setup(tier, seed):
 
 
 def bound(tier):
-    return "7 base programs x every top-level and nested position x 67 error classes x 5 in-process entry points; 67 x 2 real CLI processes; controls"
+    return "14 base programs x every top-level and nested position x 67 error classes x 5 in-process entry points; 67 x 2 real CLI processes; controls"
 
 
 def base_programs():
